@@ -457,7 +457,7 @@ func c04Observe(p *profile.Profile, o c04Opts, form string) Term {
 			// the legend figure when it prints as a raw integer (unit count), else the sum of the rows
 			// (beyond 2^52 the label shows the float64 rounding of the figure)
 			if m := legendRx.FindStringSubmatch(strings.Join(labels, "\n")); m != nil {
-				if v := atoi64(m[1]); v < 1<<52 && v > -(1<<52) {
+				if v, err := strconv.ParseInt(m[1], 10, 64); err == nil && v < 1<<52 && v > -(1<<52) {
 					shown = v
 				}
 			}
